@@ -729,7 +729,9 @@ func (a *Assembler) AssembleWithContext(netFlow gopacket.Flow, t *layers.TCP, ac
 	}
 	if action.nextSeq != invalidSequence {
 		half.nextSeq = action.nextSeq
-		if t.FIN {
+		// the FIN consumes a sequence number only once it has been delivered (it may still be
+		// queued behind a gap while a buffer limit pushed out older data)
+		if t.FIN && half.closed {
 			half.nextSeq = half.nextSeq.Add(1)
 		}
 	}
